@@ -85,6 +85,25 @@ Swap(a, b) == /\ a # b
               /\ Log([op |-> "swap", a |-> a, b |-> b, expect |-> E])
 AssignStd(a) == /\ Mutate(a, LAMBDA s : <<3, 4>>)
                 /\ Log([op |-> "assignstd", a |-> a, expect |-> E])
+\* The in-place helpers of VectorHelper take the vector by non-const reference and modify it through its
+\* mutating interface (begin / end / operator[]): each is a Mutate of the handle it receives, i.e. it must
+\* detach first.  "vh_random" (VH::simulateGaussianInPlace) writes unspecified values: -1 stands for "any".
+Helpers == {"vh_fill", "vh_addc", "vh_mulc", "vh_cumul", "vh_sortdesc", "vh_random"}
+Cumul(s) == [k \in 1..Len(s) |-> LET RECURSIVE Sum(_) Sum(j) == IF j = 0 THEN 0 ELSE s[j] + Sum(j - 1) IN Sum(k)]
+RECURSIVE SortDesc(_)
+SortDesc(s) == IF Len(s) <= 1 THEN s
+               ELSE LET m == CHOOSE i \in 1..Len(s) : \A j \in 1..Len(s) : s[i] >= s[j]
+                    IN <<s[m]>> \o SortDesc(RemoveAt(s, m))
+HelperF(k, s) == CASE k = "vh_fill"     -> [i \in 1..Len(s) |-> 5]
+                   [] k = "vh_addc"     -> [i \in 1..Len(s) |-> s[i] + 1]
+                   [] k = "vh_mulc"     -> [i \in 1..Len(s) |-> 2 * s[i]]
+                   [] k = "vh_cumul"    -> Cumul(s)
+                   [] k = "vh_sortdesc" -> SortDesc(s)
+                   [] k = "vh_random"   -> [i \in 1..Len(s) |-> -1]
+Helper(a, k) == /\ Len(val[a]) > 0
+                /\ \A i \in 1..Len(val[a]) : val[a][i] >= 0 /\ val[a][i] < 100      \* (no arithmetic on "any", bounded values)
+                /\ Mutate(a, LAMBDA s : HelperF(k, s))
+                /\ Log([op |-> "helper", a |-> a, k |-> k, expect |-> E])
 Reserve(a) == /\ UNCHANGED <<val, ptr, buf, nbuf>>
               /\ Log([op |-> "reserve", a |-> a, expect |-> E])
 
@@ -92,6 +111,7 @@ Next == /\ Len(hist) < MaxLen
         /\ \/ \E a, b \in H : Copy(a, b) \/ AppendVec(a, b) \/ Swap(a, b)
            \/ \E a \in H : \E m \in WriteMethods : \E i \in 1..MaxSize : Write(a, m, i)
            \/ \E a \in H : PushBack(a) \/ PushFront(a) \/ Clear(a) \/ Fill(a) \/ AssignStd(a) \/ Reserve(a)
+           \/ \E a \in H : \E k \in Helpers : Helper(a, k)
            \/ \E a \in H : \E n \in 0..MaxSize : Resize(a, n)
            \/ \E a \in H : \E i \in 1..(MaxSize + 1) : Insert(a, i) \/ Remove(a, i)
 Spec == Init /\ [][Next]_vars
